@@ -262,6 +262,12 @@ fn serve(base: &'static str, url: &str, resolved: HL) -> Option<Vec<String>> {
         let _ = view! { <Router>{()}</Router> };
         let (routes, _) = crate::routes::real_routes(base);
         let path = url_s.split('?').next().unwrap_or("").to_string();
+        // (as RouteDefs::match_route does: the router strips its base before it asks the routes)
+        let b = base.trim_matches('/');
+        let path = match path.trim_start_matches('/').strip_prefix(b) {
+            Some(rest) if b.is_empty() || rest.is_empty() || rest.starts_with('/') => rest.to_string(),
+            _ => return false,
+        };
         let (m, _rest) = routes.match_nested(&path);
         let Some((_id, m)) = m else { return false };
         let (view, _child) = m.into_view_and_child();
@@ -571,6 +577,32 @@ pub fn run(tier: Tier) -> i32 {
                     continue;
                 }
                 for query in ["", "a=1&b=fr"] {
+                    // .. and a URL that names its locale (every configured one, the default too): that locale is applied,
+                    // whatever the request resolved to before routing - nothing to redirect
+                    for &in_url in cfg.iter() {
+                        let mut segs: Vec<String> = base_segs(base).iter().map(|s| s.to_string()).collect();
+                        segs.push(in_url.as_str().to_string());
+                        segs.extend(page_segments(page, in_url, true));
+                        let mut purl = format!("/{}", segs.join("/"));
+                        if !query.is_empty() {
+                            purl.push('?');
+                            purl.push_str(query);
+                        }
+                        for &resolved in cfg.iter() {
+                            let got = match std::panic::catch_unwind(|| serve(base, &purl, resolved)) {
+                                Ok(g) => g,
+                                Err(e) => {
+                                    rep.violation(format!("C14/redirect: PANIC {} :: locales {names:?} base {base:?} url {purl:?} resolved {}", vmodel::par::take_panic_message(e), resolved.as_str()), json!({}));
+                                    continue;
+                                }
+                            };
+                            served += 1;
+                            let Some(got) = got else { continue };
+                            if !got.is_empty() {
+                                rep.violation(format!("C14/redirect: locales {names:?} base {base:?}: request for {purl:?} (locale {} in the URL) resolved to {} is redirected to {got:?}, expected no redirect", in_url.as_str(), resolved.as_str()), json!({"url": purl}));
+                            }
+                        }
+                    }
                     let url = expected_url(base, page, HL::default(), true, query, "");
                     for &resolved in cfg.iter() {
                         let want: Vec<String> = if resolved == HL::default() { vec![] } else { vec![expected_url(base, page, resolved, true, query, "")] };
@@ -601,7 +633,7 @@ pub fn run(tier: Tier) -> i32 {
     rep.sample(json!({"locales": ["en", "fr"], "base": "/", "url": "/english/course", "switch": "en -> fr", "expected": "/fr/english/course"}));
     rep.sample(json!({"locales": ["en", "fr", "fr-CA"], "base": "app", "url": "/app/fr-CA/usagers/42/apropos-ca?a=1&b=fr#fr", "switch": "fr-CA -> fr", "expected": "/app/fr/utilisateurs/42/a-propos?a=1&b=fr#fr"}));
     let mut cov = serde_json::Map::new();
-    cov.insert("rule".into(), json!(format!("locale sets {sets:?} (default first; names that are prefixes of each other and of path words) x base paths {BASES:?}; (A) get_locale_from_path on every path of <= 2 (thorough 3) segments over {WORDS:?}, under the base, under near misses of it (segments glued, one segment extended, last segment missing; also for the bases /a/b/c and my/app/) and elsewhere, with and without trailing slash, against a whole-segment oracle; (B) explicit-state exploration: state = (URL, locale); from the URL of every page (12 route shapes with static / param / optional (also two in a row, and after a param) / splat / localized segments and the home route instantiated with 4 parameter sets, optional present or not, plus 8 paths no route knows (some are proper prefixes of routes)) in every locale, with and without query and fragment, with and without a route table, (for the default locale also from the URL that carries it as an explicit prefix) every sequence of <= {depth} locale switches, each step calling the real get_new_path with the real previous locale; invariants per transition: result == base + new prefix (none for the default) + localized segments + untouched other segments, query and fragment (so A->B->A returns the original URL), the locale read back from the new URL is the one switched to, and the real route objects match the URL before and after as the same route with the same parameters under the new prefix; with a route table the segment tables are the ones the real <I18nRoute> stored (hook stored_segments); (C) the real <I18nRoute> built natively with i18n_path! segments (home, static, localized, param, optional, splat): generate_routes() == for every locale the plain leptos_router table in that locale's words under the locale prefix, plus the default's table unprefixed; match_nested() on every path of <= 3 (4 after a locale name) segments over locale names, localized words of every locale, glued forms (locale name + more characters in the same segment), truncated and upper-cased names, with and without trailing slash: the answer must be the plain leptos_router answer for the locale whose name equals the first segment exactly, or the default locale's answer for the whole path, or no match when neither exists; (D) the server side: for every page of the default locale requested without prefix (bases / and /app, with and without query) and every configured locale as the one Accept-Language resolves to, the matched view of the real <I18nRoute> is chosen under a RequestUrl + recording server-redirect: no redirect for the default locale, otherwise exactly one, to base + locale prefix + that locale's spelling of the page + the query")));
+    cov.insert("rule".into(), json!(format!("locale sets {sets:?} (default first; names that are prefixes of each other and of path words) x base paths {BASES:?}; (A) get_locale_from_path on every path of <= 2 (thorough 3) segments over {WORDS:?}, under the base, under near misses of it (segments glued, one segment extended, last segment missing; also for the bases /a/b/c and my/app/) and elsewhere, with and without trailing slash, against a whole-segment oracle; (B) explicit-state exploration: state = (URL, locale); from the URL of every page (12 route shapes with static / param / optional (also two in a row, and after a param) / splat / localized segments and the home route instantiated with 4 parameter sets, optional present or not, plus 8 paths no route knows (some are proper prefixes of routes)) in every locale, with and without query and fragment, with and without a route table, (for the default locale also from the URL that carries it as an explicit prefix) every sequence of <= {depth} locale switches, each step calling the real get_new_path with the real previous locale; invariants per transition: result == base + new prefix (none for the default) + localized segments + untouched other segments, query and fragment (so A->B->A returns the original URL), the locale read back from the new URL is the one switched to, and the real route objects match the URL before and after as the same route with the same parameters under the new prefix; with a route table the segment tables are the ones the real <I18nRoute> stored (hook stored_segments); (C) the real <I18nRoute> built natively with i18n_path! segments (home, static, localized, param, optional, splat): generate_routes() == for every locale the plain leptos_router table in that locale's words under the locale prefix, plus the default's table unprefixed; match_nested() on every path of <= 3 (4 after a locale name) segments over locale names, localized words of every locale, glued forms (locale name + more characters in the same segment), truncated and upper-cased names, with and without trailing slash: the answer must be the plain leptos_router answer for the locale whose name equals the first segment exactly, or the default locale's answer for the whole path, or no match when neither exists; (D) the server side: for every page of the default locale requested without prefix (bases / and /app, with and without query) and every configured locale as the one Accept-Language resolves to, the matched view of the real <I18nRoute> is chosen under a RequestUrl + recording server-redirect: no redirect for the default locale, otherwise exactly one, to base + locale prefix + that locale's spelling of the page + the query; and for the same pages requested WITH a locale prefix (every configured locale, the default too) no redirect whatever the header says")));
     cov.insert("exhaustive".into(), json!(true));
     cov.insert("states".into(), json!(n_states.max(1)));
     cov.insert("depth".into(), json!(depth));
